@@ -22,6 +22,7 @@ public:
   bool is_default_constructible() const { return vin_default_constructible; }
   CPPInstance *get_copy_constructor() const { return vin_has_declared_copy_ctor ? g_declared_copy_ctor : (CPPInstance *)0; }
   bool is_copy_constructible() const { return vin_copy_constructible; }
+  bool is_abstract() const;
   std::string get_simple_name() const { return std::string("S"); }
   CPPScope *get_scope() const { return 0; }
 };
